@@ -67,6 +67,7 @@ struct State {
     /// events for oracles: (thread, kind) when a thread reports itself blocked
     pub blocked_log: Vec<(usize, &'static str, bool)>,
     stuck: Option<(usize, bool)>,
+    yield_at_locks: bool,
 }
 
 pub struct Inner {
@@ -246,7 +247,21 @@ impl ThreadCtx {
         let i2 = self.inner.clone();
         jammdb::verif_hooks::install(jammdb::verif_hooks::Hooks {
             yield_point: Box::new(move |name| yield_impl(&i1, me, name)),
-            before_lock: Box::new(move |kind, try_fn| loop {
+            before_lock: Box::new(move |kind, try_fn| {
+                let at_locks = { let st = i2.m.lock().unwrap(); st.yield_at_locks && !st.free_run };
+                if at_locks {
+                    let name: &'static str = match kind {
+                        "file" => "lock:file",
+                        "mmap_read" => "lock:mmap_read",
+                        "mmap_write" => "lock:mmap_write",
+                        "data" => "lock:data",
+                        "freelist" => "lock:freelist",
+                        "open_ro_txs" => "lock:open_ro_txs",
+                        _ => "lock:other",
+                    };
+                    yield_impl(&i2, me, name);
+                }
+                loop {
                 if i2.m.lock().unwrap().free_run {
                     return;
                 }
@@ -288,6 +303,7 @@ impl ThreadCtx {
                     }
                 }
                 // we hold the baton: the probe said the lock is free and nobody ran since
+                }
             }),
         });
     }
@@ -327,6 +343,12 @@ pub type ThreadFn = Box<dyn FnOnce(ThreadCtx) + Send + 'static>;
 
 /// Runs one execution of the scenario under the given plan / strategy.
 pub fn execute(threads: Vec<ThreadFn>, plan: &[usize], strategy: Strategy, step_limit: usize) -> ExecResult {
+    execute_opts(threads, plan, strategy, step_limit, false)
+}
+
+/// `yield_at_locks`: every lock acquisition jammdb announces is a scheduling point of its own,
+/// also when the lock is free (a thread can be preempted between two short critical sections).
+pub fn execute_opts(threads: Vec<ThreadFn>, plan: &[usize], strategy: Strategy, step_limit: usize, yield_at_locks: bool) -> ExecResult {
     let n = threads.len();
     let (seed, prio, change_points) = match &strategy {
         Strategy::Random(s) => (*s, vec![0; n], vec![]),
@@ -357,6 +379,7 @@ pub fn execute(threads: Vec<ThreadFn>, plan: &[usize], strategy: Strategy, step_
             prio,
             change_points,
             blocked_log: Vec::new(),
+            yield_at_locks,
             stuck: None,
         }),
         cv: Condvar::new(),
